@@ -274,7 +274,7 @@ def site_fn(fn: str, site: int) -> str:
 
 
 def source(prog: dict, *, mc: int = 1, is_async: bool = False, per_site: Optional[Dict[int, dict]] = None,
-           fn_attrs: Optional[Dict[str, dict]] = None) -> str:
+           fn_attrs: Optional[Dict[str, dict]] = None, local_subs: bool = False) -> str:
     """Python source of the tawazi version. `per_site`: call-site index (in the top-level body) -> attrs (resource, priority,
     is_sequential): a private decorated wrapper is generated for that site (no function reuse at that site)."""
     per_site = per_site or {}
@@ -342,12 +342,23 @@ def source(prog: dict, *, mc: int = 1, is_async: bool = False, per_site: Optiona
         for s in p.get("subs", []):
             emit(s, False)
         ps = ", ".join(nm if d == NODEFAULT else f"{nm}={d!r}" for nm, d in p["params"])
+        start = len(L)
         if top:
             L.append(f"@dag(max_concurrency={mc}, is_async={is_async})")
         else:
             L.append("@dag")
         L.append(f"def {p['name']}({ps}):")
         body(p, top)
+        if local_subs and not top:
+            # define the DAG inside a factory function: its qualified name contains dots (f.<locals>.name)
+            block = ["    " + ln if ln else ln for ln in L[start:]]
+            del L[start:]
+            L.append(f"def _make_{p['name']}():")
+            L.extend(x for x in block if x)
+            L.append(f"    return {p['name']}")
+            L.append("")
+            L.append(f"{p['name']} = _make_{p['name']}()")
+            L.append("")
 
     emit(prog, True)
     return "\n".join(L)
